@@ -357,6 +357,20 @@ class Interp(object):
                             yield r, tr2
                 return
             raise Unmodelled("method %s" % meth)
+        if k == "fmt":
+            # string building: the pieces concatenated
+            def rec_f(parts, tr, acc):
+                if not parts:
+                    yield AStr.of(*acc), tr
+                    return
+                for v, tr2 in self._ev(parts[0], tr):
+                    if not isinstance(v, AStr):
+                        raise Unmodelled("formatting of %r" % (v,))
+                    for r in rec_f(parts[1:], tr2, acc + [v]):
+                        yield r
+            for r in rec_f(list(t[1]), trail, []):
+                yield r
+            return
         if k == "tuple":
             def rec_t(elts, tr, acc):
                 if not elts:
